@@ -34,6 +34,9 @@ META = {
     "C11": {"technique": "structure-aware fuzzing: generated YAML node corruptions, byte mutations, random text and file trees against a crash/hang oracle",
             "level_text": "Generated-input search over workflow files, sub-workflow trees and input documents through the public engine API in a worker process; any panic, process death (stack exhaustion) or Parse that does not return is a violation; file trees carry their expected verdict.",
             "level_note": "trusted base: gopkg.in/yaml.v3 to build the corrupted documents, the worker/watchdog plumbing; byte strings travel base64-encoded"},
+    "C19": {"technique": "property-based testing: generated input schemas and valid / single-mutation-invalid documents, normalisation oracle",
+            "level_text": "Generated-input search over input schemas and documents: an invalid document must be refused before the scripted deployer sees any run-phase activity; a valid one must reach every consumer exactly as the harness's own normalisation (types, defaults) predicts, also through the YAML decoding path.",
+            "level_note": TB + "; validity of a document is decided by construction (one mutation of a valid document)"},
 }
 
 NOT_APPLICABLE = []
